@@ -163,6 +163,7 @@ pub fn props_of(v: &[Prop]) -> Vec<Property<'_>> {
 
 pub fn direct(prop: &str, tier: Tier, caps: &Caps) -> Vec<FamilyReport> {
     match prop {
+        "C01" => crate::d_c09::run_c01(tier, caps),
         "C02" => crate::d_c05::run("C02", tier, caps),
         "C03" => crate::d_c05::run("C03", tier, caps),
         "C05" => crate::d_c05::run("C05", tier, caps),
@@ -183,7 +184,7 @@ pub fn replay_case(name: &str, case: &Value) -> Option<CaseOut> {
         crate::d_c05::replay(name, case)
     } else if name.starts_with("C07") {
         crate::d_c07::replay(name, case)
-    } else if name.starts_with("C09") {
+    } else if name.starts_with("C09") || name.starts_with("C01-remaining-lengths") {
         crate::d_c09::replay(name, case)
     } else if name.starts_with("C14") {
         crate::d_c14::replay(name, case)
